@@ -52,6 +52,11 @@ def check(ctx, only_h1: bool = False, h1_rule: str = "C13-H1") -> None:
     rule_h10(ctx)
     if not only_h1:
         rule_h11(ctx)
+        # H12: the filter stage reads the rows by the Balancer's column names (shared with C04-G16): a stage built
+        # without them fails as soon as it demotes a row, and the batch is lost for that threshold only
+        from . import c04 as _c04
+
+        _c04.rule_g16(ctx, "C13-H12")
     solved, issue, conf = pl.solved_col.text, pl.issue_col.text, texts(ctx.balancer.get("__confidence_col"))
     conf_store = [s for s in st.stores if s.keytexts & conf and s.func is f]
     ctx.require(conf_store, "predict no longer stores the confidence column")
